@@ -13,7 +13,7 @@ Discharge procedures, in order:
 """
 import re
 
-from kq.core import Resolver, callee_name, callee_written, const_val, is_const, is_place, norm_name, place_str, proj
+from kq.core import rvalue_operands, Resolver, callee_name, callee_written, const_val, is_const, is_place, norm_name, place_str, proj
 from kq.gf2 import GF2, St, root_desc
 from kq.guardflow import INF, IS, ty_range
 from kq.report import RuleResult
@@ -98,6 +98,11 @@ def sites_of(fn):
                 out.append(Site(fn, bi, "unwrap", {"recv": t["args"][0], "m": cn.split("::")[-1]}, t.get("ln"), t.get("mac")))
             elif cn in EXT_PANICKY:
                 out.append(Site(fn, bi, "ext", {"callee": cn, "args": t["args"]}, t.get("ln"), t.get("mac")))
+            elif cn in ("core::iter::traits::iterator::Iterator::collect", "core::iter::traits::collect::FromIterator::from_iter") \
+                    and not proj(t["dest"]) and re.match(r"heapless::vec::Vec<.*, (\d+)>$", fn.local_ty(t["dest"]["l"]) or ""):
+                # heapless::Vec's FromIterator panics when the iterator yields more items than the fixed capacity
+                cap = int(re.match(r"heapless::vec::Vec<.*, (\d+)>$", fn.local_ty(t["dest"]["l"])).group(1))
+                out.append(Site(fn, bi, "ext", {"callee": "heapless::vec::Vec::from_iter", "args": t["args"], "cap": cap}, t.get("ln"), t.get("mac")))
             elif cn.startswith("core::panicking::"):
                 out.append(Site(fn, bi, "explicit", {"callee": cn}, t.get("ln"), t.get("mac")))
     return out
@@ -655,6 +660,40 @@ class Engine:
                 if not v.is_empty() and v.lo() >= 1:
                     s.status, s.how = "ok", "size argument %s >= 1" % v
                     return
+            if cn == "heapless::vec::Vec::from_iter" and d["args"] and is_place(d["args"][0]):
+                # the source yields at most `cap` items: a fixed container of at most that capacity behind adaptors that
+                # cannot lengthen it, or a take(k) with k <= cap in the chain
+                cap = d["cap"]
+                ty = fn.local_ty(d["args"][0]["l"]) or ""
+                growing = ("Chain<", "FlatMap<", "Flatten<", "Cycle<", "Repeat<", "RepeatWith<", "Intersperse<")
+                if not any(x in ty for x in growing):
+                    m = re.search(r"(?:heapless::vec::IntoIter<[^<>]*(?:<[^<>]*>)?[^<>]*, (\d+)>|arraydeque::(?:Drain|IntoIter|Iter)<[^<>]*(?:\([^()]*\))?[^<>]*?, (\d+), )", ty)
+                    if m and int(m.group(1) or m.group(2)) <= cap:
+                        s.status, s.how = "ok", "source is a fixed container of capacity %s <= %d" % (m.group(1) or m.group(2), cap)
+                        return
+                    if "Take<" in ty:
+                        # find the take(k) call that built it
+                        cur, hops = d["args"][0], 0
+                        while is_place(cur) and hops < 8:
+                            dd = fn.single_def(cur["l"])
+                            if dd is None:
+                                break
+                            if dd[2] == "call":
+                                if (callee_name(dd[3]) or "").split("::")[-1] == "take" and len(dd[3]["args"]) > 1:
+                                    kv = g.value(st, dd[3]["args"][1])
+                                    if not kv.is_empty() and kv.hi() <= cap:
+                                        s.status, s.how = "ok", "take(%s) with capacity %d" % (kv, cap)
+                                        return
+                                    break
+                                cur = dd[3]["args"][0] if dd[3]["args"] else None
+                            elif dd[2] == "assign" and dd[3]["k"] in ("use", "ref"):
+                                cur = dd[3].get("a") or {"l": dd[3]["p"]["l"]}
+                            else:
+                                break
+                            hops += 1
+                s.need = (k, None, None)
+                s.status = "no"
+                return
             if cn.endswith("::drain") and len(d["args"]) > 1:
                 rp = _range_parts(fn, d["args"][1])
                 if rp is not None and rp[0] == "full":
@@ -1014,6 +1053,54 @@ def _guarded_by_not(fn, bb, callee):
 
 def check_shape(eng, s, tag):
     fn = s.fn
+    if tag.startswith("callers-pass-bounded-iterator:"):
+        # the collected iterator is parameter N of fn; every call site hands in an iterator over a fixed container of at most
+        # the capacity, an empty iterator, or (recursion) fn's own parameter / a clone of it
+        pn = int(tag.split(":")[1])
+        cap = s.detail.get("cap", 0)
+        src = s.detail["args"][0]
+        cur, hops = src, 0
+        while is_place(cur) and cur["l"] != pn and hops < 6:
+            dd = fn.single_def(cur["l"])
+            if dd and dd[2] == "assign" and dd[3]["k"] in ("use", "ref"):
+                cur = dd[3].get("a") or {"l": dd[3]["p"]["l"]}
+                hops += 1
+            else:
+                break
+        if not (is_place(cur) and cur["l"] == pn):
+            return False, "the collected iterator is no longer parameter %d" % pn
+        bad = []
+        n = 0
+        for (cf, bi, t) in eng.prog.call_sites(fn.norm):
+            if len(t["args"]) < pn:
+                continue
+            n += 1
+            a = t["args"][pn - 1]
+            seen, ok = set(), False
+            work = [a]
+            while work and not ok:
+                o = work.pop()
+                if not is_place(o) or o["l"] in seen:
+                    continue
+                seen.add(o["l"])
+                ty = cf.local_ty(o["l"]) or ""
+                m = re.search(r"heapless::vec::IntoIter<u16, (\d+)>", ty)
+                if (m and int(m.group(1)) <= cap) or "core::iter::sources::empty::Empty<" in ty:
+                    ok = True
+                    break
+                if cf.norm == fn.norm and o["l"] == pn:
+                    ok = True
+                    break
+                for dd in cf.defs().get(o["l"], []):
+                    if dd[2] == "assign":
+                        work.extend(rvalue_operands(dd[3]))
+                    elif dd[2] == "call" and (callee_name(dd[3]) or "").split("::")[-1] in ("clone", "by_ref", "skip", "into_iter", "deref_mut") and dd[3]["args"]:
+                        work.append(dd[3]["args"][0])
+            if not ok:
+                bad.append("%s:%s" % (cf.file, t.get("ln")))
+        if bad or not n:
+            return False, "call site(s) %s pass an iterator that is not bounded by a LayerStack" % (bad[:3] or "none found")
+        return True, "%d call sites pass an iterator over a LayerStack (<= %d), an empty iterator, or the function's own parameter" % (n, cap)
     if tag == "index-is-min-with-len":
         from kq.analysis import backward_slice
         idx, ln = s.detail["index"], s.detail["len"]
@@ -1038,7 +1125,6 @@ def check_shape(eng, s, tag):
                     if cn in ("core::num::saturating_sub", "core::convert::From::from", "core::convert::Into::into", "core::convert::num::from"):
                         work.extend(payload["args"][:1])
                 elif kind == "assign":
-                    from kq.core import rvalue_operands
                     if payload["k"] in ("use", "cast"):
                         work.extend(rvalue_operands(payload))
         return False, "the index is no longer clamped by min(.., len) of the indexed list"
